@@ -1,9 +1,11 @@
 //! Wasm engine monitors: C01 (conformance), C02 (metering), C09 (validation
 //! totality/soundness), C13 (artifact persistence, interrupt/resume).
+mod allowlist;
 mod c01;
 mod c02;
 mod c09;
 mod c13;
+mod chain_energy;
 mod common;
 
 use vmon_core::{ChildCtx, Engine, Plan, SanTier, Shard, Tier};
@@ -44,7 +46,7 @@ impl Engine for WasmEngine {
                 p.timeout_s = if quick { 600 } else { 3 * 3600 };
                 p.hang_is_violation = true;
                 p.rule = "case = generated valid module (40% loop-heavy profile) run on every export with 2 argument vectors under metered-V0 and metered-V1 artifacts; evaluations = metered executions judged against the transcribed cost schedule (plus one per budget-sweep run); distinct_nontrivial = distinct modules with an execution of >= 3 positive charges and >= 1 loop back-edge or host call".into();
-                p.floors = vec![("energy.exact".into(), 1000), ("energy.trap_at_least".into(), 50), ("grow.events".into(), 10), ("budget.ooe_observed".into(), 200), ("budget.exact_remaining".into(), 200), ("ticks.positive".into(), 10_000), ("modules.nontrivial".into(), 50)];
+                p.floors = vec![("energy.exact".into(), 1000), ("energy.trap_at_least".into(), 50), ("grow.events".into(), 10), ("budget.ooe_observed".into(), 200), ("budget.exact_remaining".into(), 200), ("ticks.positive".into(), 10_000), ("modules.nontrivial".into(), 50), ("chain_energy.memory_alloc".into(), 100)];
             }
             "C09" => {
                 p.cases = if quick { 20_000 } else { 2_000_000 };
@@ -52,7 +54,7 @@ impl Engine for WasmEngine {
                 p.crash_is_violation = true;
                 p.hang_is_violation = true;
                 p.rule = "case = byte string: generated valid module, boundary module on/over a documented limit, or a generated module mutated at instruction, LEB128, section or byte level, or random bytes; evaluations = byte strings classified by both the engine (parse_skeleton+validate_module+compile) and the independent reference validator; distinct_nontrivial = distinct mutated byte strings whose classification got past the section framing (reference stage >= 2)".into();
-                p.floors = vec![("agree.valid".into(), 2000), ("agree.invalid".into(), 5000), ("expected.valid".into(), 500), ("expected.invalid".into(), 300), ("exec.accepted_module".into(), 2000), ("cases.nontrivial".into(), 5000)];
+                p.floors = vec![("agree.valid".into(), 2000), ("agree.invalid".into(), 5000), ("expected.valid".into(), 500), ("expected.invalid".into(), 300), ("exec.accepted_module".into(), 2000), ("cases.nontrivial".into(), 5000), ("allowlist.expect_accept".into(), 200), ("allowlist.expect_reject".into(), 500)];
                 p.san = vec![
                     SanTier { name: "asan", shards: 16, cases: if quick { 3000 } else { 100_000 }, timeout_s: if quick { 600 } else { 3600 }, budget_s: if quick { 40 } else { 1500 } },
                     SanTier { name: "miri", shards: 16, cases: if quick { 60 } else { 3000 }, timeout_s: if quick { 600 } else { 3600 }, budget_s: if quick { 45 } else { 1200 } },
